@@ -72,92 +72,15 @@ static const char *errname(int e) {
     }
 }
 
-/* ------------------------------------------------------------------ C16 */
+struct cmd { const char *name; void (*fn)(void); int minargs; };
 
-static void cmd_x2I(void) {
-    INTEGER_t st;
-    memset(&st, 0, sizeof(st));
-    int r;
-    const char *c = tok[0];
-    errno = 0;
-    if(!strcmp(c, "imax2I")) r = asn_imax2INTEGER(&st, strtoimax(tok[1], 0, 10));
-    else if(!strcmp(c, "long2I")) r = asn_long2INTEGER(&st, strtol(tok[1], 0, 10));
-    else if(!strcmp(c, "umax2I")) r = asn_umax2INTEGER(&st, strtoumax(tok[1], 0, 10));
-    else r = asn_ulong2INTEGER(&st, strtoul(tok[1], 0, 10));
-    if(r) printf("FAIL\n");
-    else { puthex(st.buf, st.size); printf("\n"); }
-    free(st.buf);
-}
-
-static void cmd_I2x(void) {
-    INTEGER_t st;
-    memset(&st, 0, sizeof(st));
-    size_t n;
-    st.buf = unhex(tok[1], &n);
-    st.size = n;
-    const char *c = tok[0];
-    int r;
-    errno = 0;
-    if(!strcmp(c, "I2imax")) {
-        intmax_t v = 0; r = asn_INTEGER2imax(&st, &v);
-        if(!r) printf("OK %jd\n", v);
-    } else if(!strcmp(c, "I2long")) {
-        long v = 0; r = asn_INTEGER2long(&st, &v);
-        if(!r) printf("OK %ld\n", v);
-    } else if(!strcmp(c, "I2umax")) {
-        uintmax_t v = 0; r = asn_INTEGER2umax(&st, &v);
-        if(!r) printf("OK %ju\n", v);
-    } else {
-        unsigned long v = 0; r = asn_INTEGER2ulong(&st, &v);
-        if(!r) printf("OK %lu\n", v);
-    }
-    if(r) printf("%s\n", errname(errno));
-    free(st.buf);
-}
-
-static const char *strtox_name(enum asn_strtox_result_e r) {
-    switch(r) {
-    case ASN_STRTOX_ERROR_RANGE: return "RANGE";
-    case ASN_STRTOX_ERROR_INVAL: return "INVAL";
-    case ASN_STRTOX_EXPECT_MORE: return "MORE";
-    case ASN_STRTOX_OK: return "OK";
-    case ASN_STRTOX_EXTRA_DATA: return "EXTRA";
-    }
-    return "?";
-}
-
-static void cmd_strtox(void) {
-    size_t n;
-    uint8_t *b = unhex(tok[1], &n);
-    const char *str = (const char *)b;
-    const char *end = str + n;
-    const char *c = tok[0];
-    enum asn_strtox_result_e r;
-    int is_signed = 0;
-    intmax_t sv = 0; uintmax_t uv = 0;
-    if(!strcmp(c, "strtoimax")) { is_signed = 1; r = asn_strtoimax_lim(str, &end, &sv); }
-    else if(!strcmp(c, "strtol")) { long l = 0; is_signed = 1; r = asn_strtol_lim(str, &end, &l); sv = l; }
-    else if(!strcmp(c, "strtoumax")) { r = asn_strtoumax_lim(str, &end, &uv); }
-    else { unsigned long l = 0; r = asn_strtoul_lim(str, &end, &l); uv = l; }
-    printf("%s", strtox_name(r));
-    if(r != ASN_STRTOX_ERROR_INVAL) printf(" %ld", (long)(end - str));
-    if(r == ASN_STRTOX_OK || r == ASN_STRTOX_EXTRA_DATA) {
-        if(is_signed) printf(" %jd", sv); else printf(" %ju", uv);
-    }
-    printf("\n");
-    free(b);
-}
-
+/* generated at build time: #include of every harness/leafdrv_*.inc and
+ * #define MORE_CMDS as the concatenation of their CMDS_* macros */
 #include "leafdrv_more.inc"
 
 /* ------------------------------------------------------------------ */
 
-struct cmd { const char *name; void (*fn)(void); int minargs; };
 static const struct cmd cmds[] = {
-    {"imax2I", cmd_x2I, 1}, {"long2I", cmd_x2I, 1}, {"umax2I", cmd_x2I, 1}, {"ulong2I", cmd_x2I, 1},
-    {"I2imax", cmd_I2x, 1}, {"I2long", cmd_I2x, 1}, {"I2umax", cmd_I2x, 1}, {"I2ulong", cmd_I2x, 1},
-    {"strtoimax", cmd_strtox, 1}, {"strtol", cmd_strtox, 1},
-    {"strtoumax", cmd_strtox, 1}, {"strtoul", cmd_strtox, 1},
     MORE_CMDS
     {0, 0, 0}
 };
